@@ -1,5 +1,6 @@
 pub mod checks;
 pub mod cli;
+pub mod climodel;
 pub mod corpus;
 pub mod model;
 pub mod oracle;
